@@ -701,6 +701,25 @@ func runC06(c *core.Ctx) {
 				var latch *ssa.Alloc // a local error-latching wrapper of the package around the storage writer, if any
 				w := core.Strip(e.Call.Args[1])
 				if mw, ok := w.(*ssa.Call); ok && core.IsPkgFunc(mw, "io", "MultiWriter") {
+					// nothing else may sit in the fan-out: io.MultiWriter stops at the first writer that fails, so a further
+					// member that can refuse a write (a cancellation gate, a size limiter) fails the encoder's write without
+					// the storage writer - or the latch in front of it - ever seeing a failure
+					foreign := 0
+					for _, el := range varargElements(mw.Call.Args[0]) {
+						el = core.Strip(el)
+						isStorageSide := extractOf(el, opener, 0)
+						if al, ok := el.(*ssa.Alloc); ok && !isStorageSide {
+							for _, sv := range allocFieldStores(al) {
+								if extractOf(sv, opener, 0) {
+									isStorageSide = true
+								}
+							}
+						}
+						if !isStorageSide && !isHashSink(el) {
+							foreign++
+						}
+					}
+					c.Check(foreign == 0, key+"#fan-out-storage-and-hasher-only", p.Pos(mw.Pos()), "the encoder's writer fans out to the storage side and the hasher only", "io.MultiWriter is given a further writer besides the storage side and the hasher: MultiWriter stops at the first member that fails, so when that member refuses a write the encoder gets an error the storage writer (and the latch) never saw - a codec that carries on after a failed write then reports success, and a truncated block is committed under the link of the truncated bytes")
 					for _, el := range varargElements(mw.Call.Args[0]) {
 						el = core.Strip(el)
 						if extractOf(el, opener, 0) {
@@ -981,4 +1000,14 @@ func latchDiscipline(p *core.Program, al *ssa.Alloc) string {
 		return "after the forwarded Write failed a return is reachable without the error having been latched"
 	}
 	return ""
+}
+
+// isHashSink: the value is a hash.Hash (the hasher the link is computed from).
+func isHashSink(v ssa.Value) bool {
+	for _, t := range []types.Type{v.Type(), core.Strip(v).Type()} {
+		if nt := namedOfType(t); nt != nil && nt.Obj().Pkg() != nil && nt.Obj().Pkg().Path() == "hash" && nt.Obj().Name() == "Hash" {
+			return true
+		}
+	}
+	return false
 }
